@@ -83,14 +83,7 @@ func c01advancesBy(pr *Prog, f *Func) (countParam int, ok bool) {
 	if loop == nil || loop.Cond == nil {
 		return 0, false
 	}
-	be, isBe := loop.Cond.(*ast.BinaryExpr)
-	if !isBe || be.Op != token.LSS || expr(be.Y) != names[1] {
-		return 0, false
-	}
-	// init i := 0, post i++
-	init, isA := loop.Init.(*ast.AssignStmt)
-	post, isP := loop.Post.(*ast.IncDecStmt)
-	if !isA || !isP || expr(init.Rhs[0]) != "0" || post.Tok != token.INC {
+	if _, bound, okL := loopUpTo(f, loop); !okL || expr(bound) != names[1] {
 		return 0, false
 	}
 	// body: if !scan.Scan() { ... return <non-nil> }
@@ -210,7 +203,7 @@ func c01r1(c *RC) {
 						}
 						return -1
 					case token.NEQ, token.EQL:
-						if loopKey != "" && expr(x.X) == loopKey && expr(x.Y) == "0" && iter != "" {
+						if loopKey != "" && (expr(x.X) == loopKey && expr(x.Y) == "0" || expr(x.Y) == loopKey && expr(x.X) == "0") && iter != "" {
 							isZero := iter == "iter0"
 							if (x.Op == token.EQL) == isZero {
 								return 1
@@ -355,8 +348,23 @@ func c01r2(c *RC) {
 			})
 			ast.Inspect(fn.Body, func(n ast.Node) bool {
 				if ifs, ok := n.(*ast.IfStmt); ok {
-					t := strings.ReplaceAll(expr(ifs.Cond), " ", "")
-					if strings.HasPrefix(t, werrVar+"!=nil&&(") && strings.Contains(t, errVar+"==nil") && strings.Contains(t, errVar+"==sliceio.EOF") {
+					// true exactly when the callback failed and the read's own
+					// outcome was nil or end-of-stream
+					good := true
+					for _, wnil := range []bool{true, false} {
+						for o := 0; o < 3; o++ {
+							v, known := evalCond(ifs.Cond, func(e ast.Expr) (bool, bool) {
+								if x, nn, ok := nilTest(e); ok && x == werrVar {
+									return nn != wnil, true
+								}
+								return errAtom(e, errVar, o)
+							})
+							if !known || v != (!wnil && o != 2) {
+								good = false
+							}
+						}
+					}
+					if good {
 						okMask = true
 					}
 				}
@@ -438,7 +446,7 @@ func c01r2(c *RC) {
 			return true
 		})
 		ast.Inspect(sr.Body, func(n ast.Node) bool {
-			if ifs, ok := n.(*ast.IfStmt); ok && strings.ReplaceAll(expr(ifs.Cond), " ", "") == cbErr+"==nil" {
+			if ifs, ok := n.(*ast.IfStmt); ok && func() bool { x, nn, ok := nilTest(ifs.Cond); return ok && !nn && x == cbErr }() {
 				for _, st := range ifs.Body.List {
 					if a, ok := st.(*ast.AssignStmt); ok && expr(a.Lhs[0]) == cbErr && strings.HasSuffix(expr(a.Rhs[0]), "EOF") {
 						okEOF = true
